@@ -49,7 +49,7 @@ Next == \E j \in DOMAIN Nodes[node + 1].e :
               r  == Cases[nd.c].reqs[e[2]] IN
           /\ e[1] >= 0
           /\ node' = e[1]
-          /\ g' = Ghost(g, r, RespOf(e), PS[nd.c])
+          /\ g' = GhostFor(Mon, g, r, RespOf(e), PS[nd.c])
           /\ last' = [case |-> Cases[nd.c].id, from |-> node, op |-> r.op, dt |-> r.dt, a |-> r.a, ok |-> e[3]]
 
 Spec == Init /\ [][Next]_<<node, g, last>>
@@ -85,18 +85,20 @@ Describe(p) == LET nd == Nodes[p[1]] e == nd.e[p[2]] P == PS[nd.c] IN
    post |-> IF e[1] >= 0 THEN Nodes[e[1] + 1].pre ELSE nd.pre,
    expected |-> LET o == Step(nd.pre, Cases[nd.c].reqs[e[2]], P) IN [ok |-> o.resp.ok, post |-> o.s]]
 
+\* VEL_CONFORM = "no": a repeated run over the same graph (other monitor) skips the edge comparison
+Full == IOEnv.VEL_CONFORM # "no"
 Report ==
   [ nodes       |-> Cardinality(Sel),
     expanded    |-> Cardinality({i \in Sel : Nodes[i].x}),
     roots       |-> Cardinality(Roots),
     edges       |-> NEdges,
     approved    |-> NOk,
-    ndivergent  |-> Cardinality(Divergent),
-    divergences |-> LET q == SetToSeq(Divergent) IN
-                    [k \in 1..Lesser(Len(q), 40) |-> Describe(q[k])],
-    nfailed     |-> Cardinality(Failed),
-    failed      |-> LET q == SetToSeq(Failed) IN
-                    [k \in 1..Lesser(Len(q), 40) |-> Describe(q[k])],
+    ndivergent  |-> IF Full THEN Cardinality(Divergent) ELSE 0,
+    divergences |-> IF Full THEN LET q == SetToSeq(Divergent) IN
+                                 [k \in 1..Lesser(Len(q), 40) |-> Describe(q[k])] ELSE <<>>,
+    nfailed     |-> IF Full THEN Cardinality(Failed) ELSE 0,
+    failed      |-> IF Full THEN LET q == SetToSeq(Failed) IN
+                                 [k \in 1..Lesser(Len(q), 40) |-> Describe(q[k])] ELSE <<>>,
     init_bad    |-> SetToSeq({Cases[Nodes[i].c].id : i \in InitBad}) ]
 
 ASSUME JsonSerialize(IOEnv.VEL_REPORT, Report)
